@@ -62,6 +62,7 @@ type MarkdownWriter struct {
 	output    strings.Builder
 	imageNum  int
 	footnotes []string
+	inList    bool // 上一个输出的块是列表项
 }
 
 // Write 生成Markdown内容
@@ -100,6 +101,14 @@ func (w *MarkdownWriter) Write() ([]byte, error) {
 	return []byte(w.output.String()), nil
 }
 
+// closeList 在列表之后输出一个空行，避免后续段落、表格被解析为列表项的延续行
+func (w *MarkdownWriter) closeList() {
+	if w.inList {
+		w.output.WriteString("\n")
+		w.inList = false
+	}
+}
+
 // writeMetadata 写入文档元数据
 func (w *MarkdownWriter) writeMetadata() {
 	w.output.WriteString("---\n")
@@ -132,6 +141,7 @@ func (w *MarkdownWriter) writeParagraph(para *document.Paragraph) error {
 
 // writeHeading 写入标题
 func (w *MarkdownWriter) writeHeading(para *document.Paragraph, style string) error {
+	w.closeList()
 	level := w.getHeadingLevel(style)
 	if level > 6 {
 		level = 6
@@ -160,6 +170,7 @@ func (w *MarkdownWriter) writeHeading(para *document.Paragraph, style string) er
 
 // writeQuote 写入引用
 func (w *MarkdownWriter) writeQuote(para *document.Paragraph) error {
+	w.closeList()
 	text := w.extractParagraphText(para)
 	if strings.TrimSpace(text) == "" {
 		return nil
@@ -176,6 +187,7 @@ func (w *MarkdownWriter) writeQuote(para *document.Paragraph) error {
 
 // writeCodeBlock 写入代码块
 func (w *MarkdownWriter) writeCodeBlock(para *document.Paragraph) error {
+	w.closeList()
 	text := w.extractParagraphText(para)
 	if strings.TrimSpace(text) == "" {
 		return nil
@@ -203,12 +215,14 @@ func (w *MarkdownWriter) writeListItem(para *document.Paragraph) error {
 	}
 
 	w.output.WriteString(marker + " " + text + "\n")
+	w.inList = true
 
 	return nil
 }
 
 // writeNormalParagraph 写入普通段落
 func (w *MarkdownWriter) writeNormalParagraph(para *document.Paragraph) error {
+	w.closeList()
 	text := w.extractParagraphText(para)
 	if strings.TrimSpace(text) == "" {
 		w.output.WriteString("\n")
@@ -230,6 +244,7 @@ func (w *MarkdownWriter) writeTable(table *document.Table) error {
 	if table == nil || len(table.Rows) == 0 {
 		return nil
 	}
+	w.closeList()
 
 	if !w.opts.UseGFMTables {
 		return w.writeSimpleTable(table)
